@@ -444,6 +444,15 @@ def r4_observer_survives(chk: Check):
                 m += 1
                 locked_tests = [t for t, pol in g.guards(nd) if t.kind == "test" and pol is True and src(t.ast) == f"{key} in self.cache"
                                 and "self.lock" in _withs(t.ast)]
+                # the same decision through a lookup made under the lock: `e = self.cache.get(k)` ... `if e is not None:`
+                rdx = ReachingDefs(g)
+                for t, pol in g.guards(nd):
+                    if t.kind == "test" and isinstance(t.ast, ast.Compare) and isinstance(t.ast.left, ast.Name) and len(t.ast.ops) == 1 and isinstance(t.ast.comparators[0], ast.Constant) \
+                            and t.ast.comparators[0].value is None and ((isinstance(t.ast.ops[0], ast.Is) and pol is False) or (isinstance(t.ast.ops[0], ast.IsNot) and pol is True)):
+                        d = rdx.unique(t.ast.left.id, t)
+                        if d is not None and d.value is not None and src(d.value) in (f"self.cache.get({key})", f"self.cache.get({key}, None)") and d.node is not None \
+                                and d.node.ast is not None and "self.lock" in _withs(d.node.ast) and "self.lock" in _withs(t.ast):
+                            locked_tests.append(t)
                 in_try = any(isinstance(a, ast.Try) and any(h.type is None or src(h.type) in ("KeyError", "Exception", "LookupError") for h in a.handlers) and _in_body(a, x) for a in _ancestors(x))
                 chk.require(bool(locked_tests) and "self.lock" in _withs(x) or in_try, chk.fkey(f, "keyed cache access decided under the lock"),
                             f"`{src(x)}` in `{f.qual}` is not decided by a `{key} in self.cache` test made under self.lock: an entry dropped by a concurrent release() raises KeyError on the "
